@@ -15,6 +15,8 @@ use crate::report::report_sections::optimizations::{
 pub fn generate_optimization_report(
     optimizations: HashMap<Optimization, Vec<(String, BTreeSet<LineNumber>)>>,
 ) -> String {
+    #[cfg(solstat_verif)]
+    let optimizations = crate::verif_shim::SeamMap::at("optimization_report", optimizations);
     let mut optimization_report = String::from("");
 
     let mut total_optimizations_found = 0;
